@@ -24,6 +24,7 @@ type c12Scenario struct {
 	Preset    int        `json:"preset"`
 	BlockNs   int64      `json:"event_callback_blocks_ns"`
 	AppSends  int        `json:"application_sends_around_the_cut"`
+	Second    bool       `json:"on_second_connection"` // the session under test is the one re-established by Resume after an earlier loss
 }
 
 func netModes(g G, e *Engine) (int, int64) {
@@ -66,6 +67,7 @@ func runC12(e *Engine, g G, o RunOpt) RunInfo {
 		n = g.Range("n", 0, 5)
 	}
 	sc.AppSends = []int{0, 0, 2, 5}[g.N("appsends", 4)]
+	sc.Second = g.Pct("second-connection", 25)
 	sc.Inbound = GenInbound(g, n, InboundOpts{AllowSpace: true, AllowEntity: true, AllowNested: true, IDPrefix: "in", AllowBig: sc.Preset == 1, AllowR: true,
 		AllowA: sc.Client.SM && sc.AppSends > 0, MaxA: 2})
 	var total int64
@@ -114,8 +116,30 @@ func runC12(e *Engine, g G, o RunOpt) RunInfo {
 		if err != nil || len(srv.Conns) == 0 {
 			return
 		}
+		if sc.Second {
+			// an earlier session of the same client was lost and re-established first: whatever
+			// that left behind must not report the next loss a second time
+			c0 := srv.Conns[0]
+			e.Sleep(100 * time.Millisecond)
+			c0.Pipe.Cli.CutAt = c0.End.TotalWritten
+			c0.Pipe.Cli.CutErr = io.EOF
+			if e.WaitUntilFor("first-loss", time.Minute, func() bool { return countState(w.Events, xmpp.StateDisconnected) > 0 }) {
+				return
+			}
+			e.Sleep(time.Second)
+			err, _ := e.Call("Resume", w.Client.Resume)
+			if err != nil || len(srv.Conns) != 2 {
+				return
+			}
+			e.Sleep(100 * time.Millisecond)
+			// forget what the first loss reported
+			w.Errors = nil
+			w.Events = nil
+			w.Handled = nil
+			e.Probe("c12.second_connection")
+		}
 		established = true
-		conn := srv.Conns[0]
+		conn := srv.Conns[len(srv.Conns)-1]
 		cli := conn.Pipe.Cli
 		if sc.BlockNs > 0 {
 			w.Client.SetHandler(w.EventRecorder(func(ev xmpp.Event) error {
